@@ -89,7 +89,7 @@ def plan(tier, seed):
     scs += [dict(part='B', cell=ci, cl=k, place=list(pl)) for ci in range(len(GCELLS)) for k in range(4) for pl in places]
     return dict(scenarios=scs, exhaustive=True, chunk=2,
                 menus=dict(symbols=len(ELS), distances=['cutoff-1e-3', 'cutoff+1e-3', 'exactly the cutoff (where the tie is exact in floating point)'], pair_cells=[c[0] for c in PCELLS], placements=[p[0] for p in PLACES], order=['a,b', 'b,a'],
-                           assembly_cells=[c[0] for c in GCELLS], assemblies=4, assembly_placements=len(places), shifts=shifts, narrow_cells=[c[0] for c in NCELLS], narrow_pairs=['-'.join(p) for p in NPAIRS], narrow_grid='fractional separations %r^2 x {0, 0.3, 0.5} at six anchors (0.7 - 3.5 A below the faces)' % (NGRID,), permutations=['reverse', 'rotate', 'interleave'], far=[f[0] for f in FAR], far_pairs=['-'.join(p) for p in FAR_PAIRS], big=[b[0] for b in BIG]),
+                           assembly_cells=[c[0] for c in GCELLS], assemblies=4, assembly_placements=len(places), shifts=shifts, narrow_cells=[c[0] for c in NCELLS], narrow_pairs=['-'.join(p) for p in NPAIRS], narrow_grid='fractional separations %r^2 x {0, 0.3, 0.5} at nine anchors (0.7 - 4 A below the faces)' % (NGRID,), permutations=['reverse', 'rotate', 'interleave'], far=[f[0] for f in FAR], far_pairs=['-'.join(p) for p in FAR_PAIRS], big=[b[0] for b in BIG]),
                 bounds=dict(), rule='part A: one scenario per first symbol, all partners/distances/placements/cells/orders inside; non-trivial = the pair is bonded only through a periodic image',
                 assumptions=['radius and non-metal tables frozen at the pinned commit (mc/ref/bonds.py)', 'cells have perpendicular widths > 10.4 (pairs) / 7.4 (assemblies) > the largest cutoff 5.2',
                              'assembly pairs within 1e-6 of their cutoff are not compared'])
@@ -164,7 +164,7 @@ def run(sc, ctx):
         for f in itertools.product(NGRID, NGRID, [0.0, 0.3, 0.5]):
             if f == (0.0, 0.0, 0.0):
                 continue
-            for anchor in ((0.1, 0.1, 0.1), (0.9, 0.6, 0.95), (0.26, 0.26, 0.5), (0.74, 0.26, 0.3), (0.26, 0.74, 0.7), (0.5, 0.28, 0.26)):
+            for anchor in ((0.1, 0.1, 0.1), (0.9, 0.6, 0.95), (0.3, 0.5, 0.5), (0.5, 0.3, 0.5), (0.7, 0.5, 0.45), (0.5, 0.7, 0.55), (0.3, 0.3, 0.5), (0.5, 0.5, 0.3), (0.26, 0.74, 0.7)):
                 pos = wrap(np.array([np.array(anchor) @ cell, (np.array(anchor) + np.array(f)) @ cell]), cell)
                 exp, gray = ref_bonds(pos, [a, b], cell, margin=1e-6)
                 if gray:
@@ -177,6 +177,32 @@ def run(sc, ctx):
                 key = 'narrow %s' % ('bonded' if exp else 'apart')
                 out['outcomes'][key] = out['outcomes'].get(key, 0) + 1
                 out['nontrivial'] += 1 if exp else 0
+        # pairs bonded only through a face, placed along the face normal: the first atom at a perpendicular depth of 0.3 ... 0.97 cutoffs
+        # below the face, the second just beyond it
+        c = cutoff(a, b)
+        for i in range(3):
+            j, k = (i + 1) % 3, (i + 2) % 3
+            nrm = np.cross(cell[j], cell[k]); nrm = nrm / np.linalg.norm(nrm)
+            if nrm @ cell[i] < 0:
+                nrm = -nrm                                   # points into the cell from the low face
+            for high in (0, 1):
+                q = 0.5 * cell[j] + 0.5 * cell[k] + (cell[i] if high else 0)
+                inward = -nrm if high else nrm
+                for frac_d in (0.3, 0.55, 0.7, 0.85, 0.93, 0.97, 1.0, 1.1):
+                    for t in (0.0, 0.2):
+                        p1 = q + inward * (frac_d * c) + t * (cell[j] - cell[k]) * 0.1; p2 = q - inward * 0.02 + t * (cell[j] - cell[k]) * 0.1
+                        pos = wrap(np.array([p1, p2]), cell)
+                        exp, gray = ref_bonds(pos, [a, b], cell, margin=1e-6)
+                        if gray:
+                            continue
+                        for order in (0, 1):
+                            e = [a, b] if order == 0 else [b, a]; P = pos if order == 0 else pos[::-1]
+                            got, err = call(lambda: detect_bonds(mkatoms(e, P, cell)))
+                            out['evals'] += 1; out['compared'] += 1
+                            if err or as_pairs(got) != exp:
+                                out['violations'].append(viol('pair-rule', 'narrow-cell-face', '%s-%s in %s, first atom %.2f A below the %s face %d along its normal, second 0.02 A beyond it: detected %r, minimum-image rule says %r' % (
+                                    e[0], e[1], cname, frac_d * c, 'high' if high else 'low', i, err[0] if err else as_pairs(got), exp), sc, elements=e, positions=P.tolist(), cell=cell.tolist()))
+                        out['nontrivial'] += 1 if exp else 0
         out['hashes'].add(h64(('C', sc['cell'], sc['pair'])))
         return out
     if sc['part'] == 'D':
